@@ -15,12 +15,13 @@ TInit == HInit /\ t \in 1 .. NT /\ l = 1
 TStep == /\ l <= Len(Traces[t])
          /\ l' = l + 1 /\ t' = t
          /\ \/ Ev.ev = "posted" /\ Posted
+            \/ Ev.ev = "polled" /\ Polled
             \/ Ev.ev = "started" /\ Started(Ev.fast)
             \/ Ev.ev = "stopreq" /\ StopReq(Ev.active, Ev.st)
             \/ Ev.ev = "final" /\ Final(Ev.st)
             \/ Ev.ev = "oncleanup" /\ OnCleanup(Ev.kind, Ev.reason)
             \/ Ev.ev = "hook" /\ Hook(Ev.to, Ev.task, Ev.reason)
-            \/ Ev.ev = "update" /\ Update(Ev.code, Ev.st, Ev.own) /\ Predicates
+            \/ Ev.ev = "update" /\ Update(Ev.code, Ev.st) /\ Predicates
             \/ Ev.ev = "quiet" /\ Quiet(Ev.active, Ev.pending, Ev.code, Ev.st, Ev.fast) /\ Predicates
 TSpec == TInit /\ [][TStep]_<<hvars, t, l>>
 Track == TLCSet(t, IF l > TLCGet(t) THEN l ELSE TLCGet(t))
